@@ -1,0 +1,57 @@
+//go:build verif
+
+package ecscache
+
+// Contracts for govc (see /verif/DESIGN.md).  Comment-only file.
+
+//@ import dns github.com/miekg/dns
+//@ import dnsmsg github.com/AdguardTeam/AdGuardDNS/internal/dnsmsg
+
+// ---------------------------------------------------------------------------
+// C04: TTLs served from the ECS-aware cache.
+
+// Cache items are never changed after toCacheItem built them.
+//@ immutable cacheItem.*
+
+// roundDiv: division rounded to the nearest integer, for operands of the
+// same sign and without overflow (the only use: positive time left / second).
+//@ func roundDiv
+//@   property C04
+//@   requires denom > 0 && num >= 0 && num <= 9000000000000000000 && denom <= 1000000000000
+//@   ensures res == (num + denom / 2) / denom
+
+// The cloner returns a new message with the same header values and sections of
+// the same lengths (its separation properties are C07's).
+//@ func (*dnsmsg.Cloner).Clone
+//@   requires msg != nil
+//@   modifies heap
+//@   ensures clone != nil && fresh(clone) && clone.Rcode == old(msg.Rcode) && clone.AuthenticatedData == old(msg.AuthenticatedData) &&
+//@           len(clone.Answer) == old(len(msg.Answer)) && len(clone.Ns) == old(len(msg.Ns)) && len(clone.Extra) == old(len(msg.Extra))
+//@   ensures validRRs(clone.Answer) && validRRs(clone.Ns) && validRRs(clone.Extra)
+//@   ensures msg.Rcode == old(msg.Rcode)
+
+//@ func setRespAD
+//@   property C04
+//@   requires resp != nil
+//@   modifies resp.MsgHdr
+//@   ensures resp.AuthenticatedData == (old(resp.AuthenticatedData) && (reqAD || reqDO))
+//@   ensures resp.Id == old(resp.Id) && resp.Rcode == old(resp.Rcode) && resp.Response == old(resp.Response)
+
+//@ pred ecsServedTTL(low int, ageNs int) = low * 1000000000 - ageNs > 0 ? (low * 1000000000 - ageNs + 500000000) / 1000000000 : 0
+
+//@ func fromCacheItem
+//@   property C04
+//@   requires item != nil && item.msg != nil && cloner != nil && req != nil
+//@   requires validRRs(item.msg.Answer) && validRRs(item.msg.Ns) && validRRs(item.msg.Extra)
+//@   modifies heap, lastLowest
+//@   ensures resp != nil && resp.Id == req.Id
+//@   ensures ttl-decays-with-age: allTTL(resp.Answer, ecsServedTTL(lastLowest, sinceNs(old(item.when)))) &&
+//@             allTTL(resp.Ns, ecsServedTTL(lastLowest, sinceNs(old(item.when)))) && allTTL(resp.Extra, ecsServedTTL(lastLowest, sinceNs(old(item.when))))
+//@   loop 1 invariant -1 <= #i && #i < 3
+//@   loop 1 invariant (#i >= 0 ==> allTTL(resp.Answer, newTTL)) && (#i >= 1 ==> allTTL(resp.Ns, newTTL)) && (#i >= 2 ==> allTTL(resp.Extra, newTTL))
+//@   loop 1 invariant resp != nil && validRRs(resp.Answer) && validRRs(resp.Ns) && validRRs(resp.Extra)
+//@   loop 2 invariant -1 <= #i && #i < len(rrs) && -1 <= #i1 && #i1 + 1 < 3 && validRRs(rrs)
+//@   loop 2 invariant (#i1 + 1 == 0 ==> rrs == resp.Answer) && (#i1 + 1 == 1 ==> rrs == resp.Ns) && (#i1 + 1 == 2 ==> rrs == resp.Extra)
+//@   loop 2 invariant forall j int :: 0 <= j && j <= #i ==> hdrOf(rrs[j]).Ttl == newTTL
+//@   loop 2 invariant (#i1 + 1 >= 1 ==> allTTL(resp.Answer, newTTL)) && (#i1 + 1 >= 2 ==> allTTL(resp.Ns, newTTL))
+//@   loop 2 invariant resp != nil && validRRs(resp.Answer) && validRRs(resp.Ns) && validRRs(resp.Extra)
